@@ -291,6 +291,20 @@ pub fn run(run: &Run) {
                 covs(run, &sorted, &alt, "structured");
                 covs(run, &rev, &sorted, "structured");
             }
+            // the data as windows of a longer buffer (slices that start at every offset modulo 4, i.e. at
+            // every alignment a kernel could assume) - the value must not depend on where the slice lives
+            if sh == 0.0 || sh == 1e8 {
+                let long: Vec<f64> = (0..n + 5).map(|i| ((i * 7) % 11) as f64 - 4.0 + if i % 4 == 0 { 0.25 } else { 0.0 } + sh).collect();
+                let long2: Vec<f64> = (0..n + 5).map(|i| ((i * 5) % 13) as f64 * 0.5 - 3.0).collect();
+                for k in 0..4 {
+                    moments(run, &long[k..k + n], "window");
+                    order(run, &long[k..k + n], "window");
+                    if n >= 2 {
+                        covs(run, &long[k..k + n], &long2[(k + 1) % 4..(k + 1) % 4 + n], "window");
+                    }
+                }
+                run.regime("windows-of-a-longer-buffer");
+            }
         }
         run.nontrivial(1);
     });
